@@ -107,6 +107,17 @@ def diff(before: Dict[str, tuple], obj_after: Any = None) -> List[dict]:
     return out
 
 
+def _condition_repr(args, kwargs):
+    def one(v):
+        import torch as _t
+
+        if isinstance(v, _t.Tensor):
+            return ("tensor", tuple(v.shape), float(v.detach().double().sum()) if v.numel() else 0.0)
+        return repr(v)
+
+    return (tuple(one(a) for a in (args or ())), tuple(sorted((k, one(v)) for k, v in (kwargs or {}).items())))
+
+
 def state_signature(obj: Any) -> Dict[str, Any]:
     r"""Identity-level signature of a receiver: which tensor object sits at which path, plus simple attributes."""
     import torch
@@ -136,6 +147,10 @@ def state_signature(obj: Any) -> Dict[str, Any]:
             sig["module:state_dict_keys"] = tuple(sorted(obj.state_dict().keys()))
             sig["module:parameter_names"] = tuple(sorted(n for n, _ in obj.named_parameters()))
             sig["module:training"] = bool(obj.training)
+            # what every (sub)module is conditioned on: plain attributes of the spatial transforms
+            for mname, m in obj.named_modules():
+                if hasattr(m, "_args") or hasattr(m, "_kwargs"):
+                    sig[f"module[{mname}]:condition"] = _condition_repr(getattr(m, "_args", None), getattr(m, "_kwargs", None))
         except Exception as e:  # noqa: BLE001
             sig["module:state_dict_keys"] = f"raised {type(e).__name__}"
     slots = getattr(type(obj), "__slots__", None)
